@@ -194,6 +194,9 @@ func c04Shapes() []Shape {
 	add("loop-condition-with-and", Def("i", N(0)), ForC(Op("&&", tb(1, Op("<", V("i"), L(0))), tb(2, Op("<", V("i"), N(3)))), Inc("i"), Pr(S("body"), V("i"))), Pr(S("end")),
 		For3(Def("j", N(0)), Op("&&", Op("<", V("j"), N(2)), tb(3, T())), Inc("j"), Pr(S("b2"), V("j"))), Pr(S("end2")),
 		For3(Def("k", N(0)), Op("||", tb(4, Op("<", V("k"), N(1))), tb(5, F())), Inc("k"), Pr(S("b3"), V("k"))))
+	add("global-read-then-modifying-call", Def("g", L(0)), Fn("bump", nil, []Type{TInt}, Set("g", Op("+", V("g"), N(1))), Ret(V("g"))),
+		Pr(V("g"), Call("bump"), V("g")), Def("x", Op("+", V("g"), Call("bump"))), Pr(V("x"), V("g")),
+		IfS(Op("<", V("g"), Call("bump")), Pr(S("less"))))
 	add("panic-argument", IfS(tb(1, Op("<", L(0), L(1))), PanicS{X: ts(2, S("bye"))}), Pr(ti(3, N(0))))
 	add("condition-in-function", Fn("chk", []ParamDecl{Pm("a", TInt)}, []Type{TBool}, IfS(tb(1, Op("<", V("a"), L(0))), Ret(tb(2, T()))), Ret(tb(3, F()))), Pr(Call("chk", L(1))))
 	return sh
